@@ -17,7 +17,7 @@ pub fn def() -> PropDef {
 
 fn meta(_ctx: &Ctx) -> EvidenceMeta {
     EvidenceMeta {
-        rule: "modules generated under every feature profile (MVP, all, random subsets), fixtures, real corpus; per module the candidate feature sets S = {generating set, greedy-minimal set, MVP, full set minus each single proposal, 6 derived subsets}; non-trivial = the input's greedy-minimal set is a strict subset of walrus's full set and the module has a data/element segment, a block with result, a call_indirect or a memory access; distinct by module bytes. Oracle: Validator(S) accepts input => Validator(S) accepts output.".into(),
+        rule: "(beyond the round trip, the same judgement is applied to three feature-neutral transformations: the GC pass; the only table / memory, when imported, replaced by a module-defined one; a `block (result i32)` inserted through the builder API with InstrSeqType::new) modules generated under every feature profile (MVP, all, random subsets), fixtures, real corpus; per module the candidate feature sets S = {generating set, greedy-minimal set, MVP, full set minus each single proposal, 6 derived subsets}; non-trivial = the input's greedy-minimal set is a strict subset of walrus's full set and the module has a data/element segment, a block with result, a call_indirect or a memory access; distinct by module bytes. Oracle: Validator(S) accepts input => Validator(S) accepts output.".into(),
         assumptions: vec!["wasmparser's feature gating is the definition of 'needs proposal p'".into()],
         level: "exploration",
         exhaustive: false,
@@ -31,6 +31,104 @@ fn names_of(f: u32) -> String {
     } else {
         v.join("+")
     }
+}
+
+/// Replace the only table / the only memory of the module, when it is
+/// imported, by an equivalent module-defined one (a transformation that needs
+/// no feature the module did not need before). Returns how many were replaced.
+fn localise_imports(m: &mut walrus::Module) -> usize {
+    use walrus::ir::VisitorMut;
+    use walrus::*;
+    let mut n = 0;
+    let tables: Vec<TableId> = m.tables.iter().map(|t| t.id()).collect();
+    if tables.len() == 1 {
+        let old = tables[0];
+        if let Some(imp) = m.tables.get(old).import {
+            let (t64, init, max, ety, segs) = {
+                let t = m.tables.get(old);
+                (t.table64, t.initial, t.maximum, t.element_ty, t.elem_segments.iter().copied().collect::<Vec<_>>())
+            };
+            let new = m.tables.add_local(t64, init, max, ety);
+            for s in segs {
+                m.tables.get_mut(new).elem_segments.insert(s);
+            }
+            let elems: Vec<ElementId> = m.elements.iter().map(|e| e.id()).collect();
+            for e in elems {
+                if let ElementKind::Active { table, .. } = &mut m.elements.get_mut(e).kind {
+                    if *table == old {
+                        *table = new;
+                    }
+                }
+            }
+            for e in m.exports.iter_mut() {
+                if let ExportItem::Table(t) = &mut e.item {
+                    if *t == old {
+                        *t = new;
+                    }
+                }
+            }
+            struct T(TableId, TableId);
+            impl VisitorMut for T {
+                fn visit_table_id_mut(&mut self, t: &mut TableId) {
+                    if *t == self.0 {
+                        *t = self.1;
+                    }
+                }
+            }
+            for (_, f) in m.funcs.iter_local_mut() {
+                let entry = f.entry_block();
+                walrus::ir::dfs_pre_order_mut(&mut T(old, new), f, entry);
+            }
+            m.imports.delete(imp);
+            m.tables.delete(old);
+            n += 1;
+        }
+    }
+    let mems: Vec<MemoryId> = m.memories.iter().map(|t| t.id()).collect();
+    if mems.len() == 1 {
+        let old = mems[0];
+        if let Some(imp) = m.memories.get(old).import {
+            let (sh, m64, init, max, ps, segs) = {
+                let t = m.memories.get(old);
+                (t.shared, t.memory64, t.initial, t.maximum, t.page_size_log2, t.data_segments.iter().copied().collect::<Vec<_>>())
+            };
+            let new = m.memories.add_local(sh, m64, init, max, ps);
+            for s in segs {
+                m.memories.get_mut(new).data_segments.insert(s);
+            }
+            let datas: Vec<DataId> = m.data.iter().map(|e| e.id()).collect();
+            for d in datas {
+                if let DataKind::Active { memory, .. } = &mut m.data.get_mut(d).kind {
+                    if *memory == old {
+                        *memory = new;
+                    }
+                }
+            }
+            for e in m.exports.iter_mut() {
+                if let ExportItem::Memory(t) = &mut e.item {
+                    if *t == old {
+                        *t = new;
+                    }
+                }
+            }
+            struct M(MemoryId, MemoryId);
+            impl VisitorMut for M {
+                fn visit_memory_id_mut(&mut self, t: &mut MemoryId) {
+                    if *t == self.0 {
+                        *t = self.1;
+                    }
+                }
+            }
+            for (_, f) in m.funcs.iter_local_mut() {
+                let entry = f.entry_block();
+                walrus::ir::dfs_pre_order_mut(&mut M(old, new), f, entry);
+            }
+            m.imports.delete(imp);
+            m.memories.delete(old);
+            n += 1;
+        }
+    }
+    n
 }
 
 pub fn check(_ctx: &Ctx, input: &Input) -> CaseResult {
@@ -55,6 +153,62 @@ pub fn check(_ctx: &Ctx, input: &Input) -> CaseResult {
             return Ok(out);
         }
     };
+    judge(&p.bytes, &b, "", &p, &mut out, true)?;
+    // Beyond the plain round trip: transformations that cannot need a new
+    // feature must not escalate either. (1) the GC pass only removes things;
+    // (2) the only table / memory, when imported, becomes module-defined.
+    if let Ok(Some(g)) = wal::roundtrip(&p.bytes, wal::Cfg::plain(), true) {
+        judge(&p.bytes, &g, "after-gc:", &p, &mut out, false)?;
+        out.label("mode:gc");
+    }
+    let cfg = wal::Cfg::plain().to_config();
+    if let Ok(Ok(mut m)) = wal::parse(&p.bytes, &cfg) {
+        if let Ok(n) = guard("edit", || localise_imports(&mut m)) {
+            if n > 0 {
+                if let Ok(e) = wal::emit(&mut m) {
+                    judge(&p.bytes, &e, "after-localising-imported-table-or-memory:", &p, &mut out, false)?;
+                    out.label("mode:imports-localised");
+                }
+            }
+        }
+    }
+    // (3) a `block (result i32)` made through the builder API, its type
+    // computed by InstrSeqType::new: MVP needs the inline block type
+    if let Ok(Ok(mut m)) = wal::parse(&p.bytes, &cfg) {
+        let done = guard("edit", || {
+            use walrus::*;
+            let fid = match m.funcs.iter_local().next() {
+                Some((id, _)) => id,
+                None => return false,
+            };
+            let ty = ir::InstrSeqType::new(&mut m.types, &[], &[ValType::I32]);
+            let f = m.funcs.get_mut(fid).kind.unwrap_local_mut();
+            let mut b = f.builder_mut().func_body();
+            b.block_at(0, ty, |bb| {
+                bb.i32_const(0x5eed);
+            });
+            b.drop_at(1);
+            true
+        });
+        if let Ok(true) = done {
+            if let Ok(e) = wal::emit(&mut m) {
+                judge(&p.bytes, &e, "after-inserting-a-builder-made-block:", &p, &mut out, false)?;
+                out.label("mode:builder-made-block");
+            }
+        }
+    }
+    Ok(out)
+}
+
+/// the escalation judgement of `b` (output) against `a` (input)
+fn judge(a_bytes: &[u8], b: &[u8], tag: &str, p: &Prepared, out: &mut CaseOut, primary: bool) -> Result<(), Failure> {
+    let b: Vec<u8> = b.to_vec();
+    struct P<'a> {
+        bytes: &'a [u8],
+        origin: &'a str,
+        spec: &'a Option<crate::gen::Spec>,
+    }
+    let p = P { bytes: a_bytes, origin: &p.origin, spec: &p.spec };
     let ok_in = |s: u32| validate_with(&p.bytes, feat_to_wasmparser(s)).is_ok();
     // greedy minimal set
     let mut minimal = feat::ALL;
@@ -65,7 +219,7 @@ pub fn check(_ctx: &Ctx, input: &Input) -> CaseResult {
         }
     }
     let mut sets: Vec<u32> = vec![minimal, 0];
-    if let Some(s) = &p.spec {
+    if let Some(s) = p.spec {
         sets.push(s.feats);
     }
     for i in 0..12 {
@@ -85,7 +239,7 @@ pub fn check(_ctx: &Ctx, input: &Input) -> CaseResult {
         tested += 1;
         if let Err(e) = validate_with(&b, feat_to_wasmparser(s)) {
             return Err(Failure::new(
-                format!("escalation:{}", super::c02::normalise_msg(&e)),
+                format!("{}escalation:{}", tag, super::c02::normalise_msg(&e)),
                 format!(
                     "input validates under {{{}}} but the output does not: {} [{}]",
                     names_of(s),
@@ -104,14 +258,14 @@ pub fn check(_ctx: &Ctx, input: &Input) -> CaseResult {
                 || di.funcs.iter().any(|f| f.ops.iter().any(|o| o.name == "MemoryInit" || o.name == "DataDrop"));
             if do_.data_count.is_some() && di.data_count.is_none() && !input_needs_count {
                 return Err(Failure::new(
-                    "witness:data-count-section-added",
+                    format!("{}witness:data-count-section-added", tag),
                     format!("input has no passive data segment, no memory.init/data.drop and no data-count section; the output has a data-count section [{}]", p.origin),
                 ));
             }
             if let Some((i, e)) = do_.elems.iter().enumerate().find(|(_, e)| e.flag != 0) {
                 if di.elems.iter().all(|e| e.flag == 0) {
                     return Err(Failure::new(
-                        "witness:element-segment-encoding",
+                        format!("{}witness:element-segment-encoding", tag),
                         format!("output element segment {} uses flag {} although every input segment used the MVP encoding (flag 0) [{}]", i, e.flag, p.origin),
                     ));
                 }
@@ -119,7 +273,7 @@ pub fn check(_ctx: &Ctx, input: &Input) -> CaseResult {
             if let Some((i, d)) = do_.datas.iter().enumerate().find(|(_, d)| d.flag != 0) {
                 if di.datas.iter().all(|d| d.flag == 0) {
                     return Err(Failure::new(
-                        "witness:data-segment-encoding",
+                        format!("{}witness:data-segment-encoding", tag),
                         format!("output data segment {} uses flag {} although every input segment used flag 0 [{}]", i, d.flag, p.origin),
                     ));
                 }
@@ -131,7 +285,7 @@ pub fn check(_ctx: &Ctx, input: &Input) -> CaseResult {
                 for (fi, f) in do_.funcs.iter().enumerate() {
                     if let Some(o) = f.ops.iter().find(|o| matches!(o.imms.first(), Some(crate::ops::Imm::Block(crate::ops::BlockTy::Func(_))))) {
                         return Err(Failure::new(
-                            "witness:block-type-through-type-section",
+                            format!("{}witness:block-type-through-type-section", tag),
                             format!("output function {} has {} although the input uses only inline block types [{}]", fi, o.short(), p.origin),
                         ));
                     }
@@ -152,13 +306,16 @@ pub fn check(_ctx: &Ctx, input: &Input) -> CaseResult {
                     };
                     if bad {
                         return Err(Failure::new(
-                            "witness:multi-byte-table-or-memory-immediate",
+                            format!("{}witness:multi-byte-table-or-memory-immediate", tag),
                             format!("output function {}: {} is encoded as {:02x?} [{}]", fi, o.short(), bytes_of, p.origin),
                         ));
                     }
                 }
             }
         }
+    }
+    if !primary {
+        return Ok(());
     }
     out.label(format!("minimal-set-size:{}", minimal.count_ones()));
     if minimal == 0 {
@@ -182,8 +339,9 @@ pub fn check(_ctx: &Ctx, input: &Input) -> CaseResult {
     if out.nontrivial {
         out.sample = Some(json!({"origin": p.origin, "bytes": p.bytes.len(), "minimal_set": names_of(minimal), "sets_tested": tested}));
     }
-    Ok(out)
+    Ok(())
 }
+
 
 fn run(ctx: &Ctx) {
     let plans = [GenPlan {
